@@ -6,8 +6,9 @@ import Qwt.Model.BinWT
 /-! C12 — iterators yield exactly the indexed sequence, from both ends, with exact length.
 
 `wtiter_history` is the refinement theorem for `WTIterator` (shared by all wavelet trees):
-for EVERY finite history of `next` / `next_back` / `len` calls the outcomes are those of a
-deque holding `S`.  The three instantiations take the correctness of `get_unchecked`
+for EVERY finite history of `next` / `next_back` / `len` calls — and of the provided methods the
+standard adaptors are built from: `nth(k)` (`skip`, `step_by`), `nth_back(k)`, `count`, `last` —
+the outcomes are those of a deque holding `S`.  The three instantiations take the correctness of `get_unchecked`
 (properties C01–C03) as their hypothesis.  The one-ended bit / quad vector iterators are
 covered in `Props/C08` and `Props/C13`. -/
 namespace Qwt.Props.C12
@@ -35,6 +36,14 @@ theorem wt_iter_history (c : Cfg) (comp : Bool) (t : BinWT.WT) (S : List Nat)
     run (BinWT.getUnchecked c comp t) { i := 0, e := S.length } ops = specRun S ops :=
   wtiter_history _ S hget ops
 
+/-- one-ended, index-driven iterators (`QVectorIterator`, `BitVectorIter`, `BitVectorIntoIter`): every
+    history of `next` / `nth` / `count` / `last` calls from start index `0`, whenever the indexed
+    read `get(i)` returns `S[i]?` -/
+theorem fwditer_history (getO : Nat → M (Option Nat)) (S : List Nat)
+    (hget : ∀ i, getO i = .ok S[i]?) (ops : List FwdOp) :
+    fwdRun getO S.length 0 ops = specRun S (ops.map FwdOp.toIterOp) := by
+  simpa using fwdRun_eq_spec getO S hget ops 0
+
 /-- forward iteration yields `S[0], S[1], …` in order -/
 theorem spec_forward (S : List Nat) :
     specRun S (List.replicate S.length .next) = S.map Out.some := by
@@ -56,13 +65,31 @@ theorem spec_backward (S : List Nat) :
 
 /-- once exhausted, `next`/`next_back` keep returning `None` and `len` is 0 -/
 theorem spec_exhausted (ops : List IterOp) :
-    specRun [] ops = ops.map (fun op => match op with | .len => Out.val 0 | _ => Out.none) := by
+    specRun [] ops = ops.map (fun op => match op with | .len | .count => Out.val 0 | _ => Out.none) := by
   induction ops with
   | nil => rfl
   | cons op ops ih => cases op <;> simp [specRun, specStep, ih]
 
+/-- `nth(k)` yields `S[k]` and leaves `S[k+1..]`: what `skip(k)` / `step_by` rely on -/
+theorem spec_nth (S : List Nat) (k : Nat) (ops : List IterOp) :
+    specRun S (.nth k :: ops) =
+      (match S[k]? with | some x => Out.some x | none => Out.none) :: specRun (S.drop (k + 1)) ops := rfl
+
+/-- `nth_back(k)` yields the element `k` from the end and leaves everything before it -/
+theorem spec_nthBack (S : List Nat) (k : Nat) (ops : List IterOp) :
+    specRun S (.nthBack k :: ops) =
+      (match S.reverse[k]? with | some x => Out.some x | none => Out.none) ::
+        specRun (S.take (S.length - (k + 1))) ops := rfl
+
+/-- `count` reports exactly the number of elements not yet yielded and exhausts the iterator -/
+theorem spec_count (S : List Nat) (ops : List IterOp) :
+    specRun S (.count :: ops) = Out.val S.length :: specRun [] ops := rfl
+
 -- non-vacuity: a concrete history on a concrete sequence
 example : specRun [7, 8, 9] [.next, .nextBack, .len, .next, .next, .len, .nextBack] =
     [Out.some 7, Out.some 9, Out.val 1, Out.some 8, Out.none, Out.val 0, Out.none] := by decide
+
+example : specRun [7, 8, 9, 10, 11, 12] [.nth 1, .nthBack 1, .len, .last, .count, .nth 0] =
+    [Out.some 8, Out.some 11, Out.val 2, Out.some 10, Out.val 0, Out.none] := by decide
 
 end Qwt.Props.C12
